@@ -546,3 +546,305 @@ pub fn run_lines(v5: bool, lines: Vec<String>) -> Vec<String> {
     let out = results.borrow().clone();
     out
 }
+
+// ================================================================== client roles
+// (continued) engines "cli3" / "cli5": inbound logic of a real v3 / v5 CLIENT; the harness plays the
+// server (raw bytes) and the application.
+//
+// case: field 0 = configuration
+//     max_receive (v3: in-flight limit of the client dispatcher, v5: receive maximum announced in
+//     CONNECT; 0 = library default), route (1 = ClientRouter with resources "t1","t2" handled by
+//     the gated publish handler and `start(service)`: no Stop notifications observable;
+//     0 = Client::start_with_control(service, control): every PUBLISH goes to the protocol service)
+//   operations as for the servers (1 = the peer writes a packet, 2 = handler completes,
+//     3 = protocol service completes: 0 = msg.ack(), 1 = error, 2 = typed ack (v5 Publish: ack(Success)))
+// observation: as for the servers; protocol-service kinds: 1 PublishRelease 4 Disconnect 5 Ping 7 Publish;
+//   a Publish protocol message (c, 7) also logs its fields as a "handler invocation" with h = 1000 + c
+pub const V3_CONNACK: &[u8] = b"\x20\x02\x00\x00";
+pub const V5_CONNACK: &[u8] = b"\x20\x03\x00\x00\x00";
+
+async fn client3(cfgf: &[u64], log: SLog, hg: Gates<u64>, pg: Gates<u64>) -> IoTest {
+    use ntex::service::ServiceFactory;
+    use ntex_io::Io;
+    let mut cfg = MqttServiceConfig::new();
+    if arg(cfgf, 0) != 0 {
+        cfg = cfg.set_max_receive(arg(cfgf, 0) as u16);
+    }
+    let cfg = conn::shared_cfg("C3", cfg);
+    let (peer, side) = IoTest::create();
+    peer.remote_buffer_cap(1 << 20);
+    let slot = Rc::new(RefCell::new(Some(side)));
+    let cfg2 = cfg.clone();
+    let connector = v3::client::MqttConnector::<String, _>::new().connector(fn_service(
+        move |_: ntex::connect::Connect<String>| {
+            let io = slot.borrow_mut().take().expect("one connection");
+            let cfg = cfg2.clone();
+            async move { Ok::<_, ntex::connect::ConnectError>(Io::new(io, cfg)) }
+        },
+    ));
+    let svc = ntex::service::Pipeline::new(connector.create(cfg).await.expect("connector"));
+    let route = arg(cfgf, 1) == 1;
+    ntex::rt::spawn(async move {
+        let req = v3::client::Connect::new("peer".to_string())
+            .client_id("c")
+            .keep_alive(ntex::time::Seconds(0));
+        let Ok(client) = svc.call(req).await else { return };
+        let l3 = log.clone();
+        let proto = fn_service(move |m: v3::client::control::ProtocolMessage| {
+            use v3::client::control::ProtocolMessage as M;
+            let c = {
+                let mut l = l3.borrow_mut();
+                let c = l.protos.len() as u64 + 1;
+                let kind = match &m {
+                    M::PublishRelease(_) => 1,
+                    M::Ping(_) => 5,
+                    M::Publish(p) => {
+                        let pk = p.packet();
+                        l.handlers.push([
+                            1000 + c,
+                            qos_num(pk.qos),
+                            pk.packet_id.map_or(0, |i| u64::from(i.get())),
+                            topic_idx(&pk.topic),
+                            p.payload_size() as u64,
+                            u64::from(pk.retain),
+                        ]);
+                        7
+                    }
+                };
+                l.protos.push([c, kind]);
+                c
+            };
+            let g = pg.clone();
+            async move {
+                match g.wait(c).await {
+                    0 | 2 => Ok(m.ack()),
+                    r => Err(HErr(r as u8)),
+                }
+            }
+        });
+        if route {
+            let mk = |log: SLog, hg: Gates<u64>| {
+                fn_service(move |p: v3::Publish| {
+                    let h = {
+                        let mut l = log.borrow_mut();
+                        let h = l.handlers.iter().filter(|e| e[0] < 1000).count() as u64 + 1;
+                        l.handlers.push([
+                            h,
+                            qos_num(p.qos()),
+                            p.id().map_or(0, |i| u64::from(i.get())),
+                            topic_idx(p.publish_topic()),
+                            p.payload_size() as u64,
+                            u64::from(p.retain()),
+                        ]);
+                        h
+                    };
+                    let g = hg.clone();
+                    async move {
+                        let res = g.wait(h).await;
+                        drop(p);
+                        if res == 0 { Ok(()) } else { Err(HErr(res as u8)) }
+                    }
+                })
+            };
+            let _ = client
+                .resource("t1", mk(log.clone(), hg.clone()))
+                .resource("t2", mk(log.clone(), hg.clone()))
+                .start(proto)
+                .await;
+        } else {
+            let l2 = log.clone();
+            let control = fn_service(move |c: Control<HErr>| {
+                log_stop(&l2, &c);
+                async move { Ok::<_, HErr>(None) }
+            });
+            let _ = client.start_with_control(proto, control).await;
+        }
+    });
+    settle().await;
+    let _connect = peer.read_any();
+    peer.write(V3_CONNACK);
+    settle().await;
+    peer
+}
+
+async fn client5(cfgf: &[u64], log: SLog, hg: Gates<u64>, pg: Gates<u64>) -> IoTest {
+    use ntex::service::ServiceFactory;
+    use ntex_io::Io;
+    let cfg = conn::shared_cfg("C5", MqttServiceConfig::new());
+    let (peer, side) = IoTest::create();
+    peer.remote_buffer_cap(1 << 20);
+    let slot = Rc::new(RefCell::new(Some(side)));
+    let cfg2 = cfg.clone();
+    let connector = v5::client::MqttConnector::<String, _>::new().connector(fn_service(
+        move |_: ntex::connect::Connect<String>| {
+            let io = slot.borrow_mut().take().expect("one connection");
+            let cfg = cfg2.clone();
+            async move { Ok::<_, ntex::connect::ConnectError>(Io::new(io, cfg)) }
+        },
+    ));
+    let svc = ntex::service::Pipeline::new(connector.create(cfg).await.expect("connector"));
+    let route = arg(cfgf, 1) == 1;
+    let rmax = arg(cfgf, 0) as u16;
+    ntex::rt::spawn(async move {
+        let mut req = v5::client::Connect::new("peer".to_string())
+            .client_id("c")
+            .keep_alive(ntex::time::Seconds(0));
+        if rmax != 0 {
+            req = req.max_receive(rmax);
+        }
+        let Ok(client) = svc.call(req).await else { return };
+        let l3 = log.clone();
+        let proto = fn_service(move |m: v5::client::control::ProtocolMessage| {
+            use v5::client::control::ProtocolMessage as M;
+            let c = {
+                let mut l = l3.borrow_mut();
+                let c = l.protos.len() as u64 + 1;
+                let kind = match &m {
+                    M::PublishRelease(_) => 1,
+                    M::Disconnect(_) => 4,
+                    M::Ping(_) => 5,
+                    M::Publish(p) => {
+                        let pk = p.packet();
+                        l.handlers.push([
+                            1000 + c,
+                            qos_num(pk.qos),
+                            pk.packet_id.map_or(0, |i| u64::from(i.get())),
+                            topic_idx(&pk.topic),
+                            p.payload_size() as u64,
+                            u64::from(pk.retain),
+                        ]);
+                        7
+                    }
+                };
+                l.protos.push([c, kind]);
+                c
+            };
+            let g = pg.clone();
+            async move {
+                match g.wait(c).await {
+                    0 => Ok(m.ack()),
+                    2 => Ok(match m {
+                        M::Publish(p) => p.ack(v5::codec::PublishAckReason::Success),
+                        other => other.ack(),
+                    }),
+                    r => Err(HErr(r as u8)),
+                }
+            }
+        });
+        if route {
+            let mk = |log: SLog, hg: Gates<u64>| {
+                fn_service(move |p: v5::Publish| {
+                    let h = {
+                        let mut l = log.borrow_mut();
+                        let h = l.handlers.iter().filter(|e| e[0] < 1000).count() as u64 + 1;
+                        l.handlers.push([
+                            h,
+                            qos_num(p.qos()),
+                            p.id().map_or(0, |i| u64::from(i.get())),
+                            topic_idx(p.publish_topic()),
+                            p.payload_size() as u64,
+                            u64::from(p.retain()),
+                        ]);
+                        h
+                    };
+                    let g = hg.clone();
+                    async move {
+                        let res = g.wait(h).await;
+                        if res == 0 { Ok(p.ack()) } else { Err(HErr(res as u8)) }
+                    }
+                })
+            };
+            let _ = client
+                .resource("t1", mk(log.clone(), hg.clone()))
+                .resource("t2", mk(log.clone(), hg.clone()))
+                .start(proto)
+                .await;
+        } else {
+            let l2 = log.clone();
+            let control = fn_service(move |c: Control<HErr>| {
+                log_stop(&l2, &c);
+                async move { Ok::<_, HErr>(None) }
+            });
+            let _ = client.start_with_control(proto, control).await;
+        }
+    });
+    settle().await;
+    let _connect = peer.read_any();
+    peer.write(V5_CONNACK);
+    settle().await;
+    peer
+}
+
+pub async fn run_client_case(c: &Fields, v5: bool) -> Fields {
+    let log: SLog = Rc::new(RefCell::new(Log::default()));
+    let hg: Gates<u64> = Gates::new();
+    let pg: Gates<u64> = Gates::new();
+    let empty = Vec::new();
+    let cfgf = c.first().unwrap_or(&empty);
+    let io = if v5 {
+        client5(cfgf, log.clone(), hg.clone(), pg.clone()).await
+    } else {
+        client3(cfgf, log.clone(), hg.clone(), pg.clone()).await
+    };
+    let mut peer = Peer { io, pending: Vec::new(), v5 };
+    let mut obs = Fields::new();
+    for op in c.iter().skip(1) {
+        match op.first() {
+            Some(1) => peer.io.write(packet_bytes(op, v5)),
+            Some(2) => hg.open(arg(op, 1), arg(op, 2)),
+            Some(3) => pg.open(arg(op, 1), arg(op, 2)),
+            _ => {}
+        }
+        settle().await;
+        let mut o = Vec::new();
+        peer.drain(&mut o);
+        o.push(254);
+        {
+            let mut l = log.borrow_mut();
+            let from = l.hseen;
+            for h in &l.handlers[from..] {
+                o.extend_from_slice(h);
+            }
+            l.hseen = l.handlers.len();
+            o.push(253);
+            let from = l.pseen;
+            for p in &l.protos[from..] {
+                o.extend_from_slice(p);
+            }
+            l.pseen = l.protos.len();
+            o.push(252);
+            o.push(l.first_stop);
+            o.push(l.stops);
+        }
+        o.push(u64::from(!(peer.io.is_closed() || peer.io.is_server_dropped())));
+        obs.push(o);
+    }
+    drop(peer);
+    settle().await;
+    obs
+}
+
+pub fn run_client_lines(v5: bool, lines: Vec<String>) -> Vec<String> {
+    use std::panic::{AssertUnwindSafe, catch_unwind};
+    let lines: Vec<String> = lines.into_iter().filter(|l| !l.starts_with('#')).collect();
+    let results: Rc<RefCell<Vec<String>>> = Rc::new(RefCell::new(Vec::new()));
+    while results.borrow().len() < lines.len() {
+        let start = results.borrow().len();
+        let rest: Vec<String> = lines[start..].to_vec();
+        let r2 = results.clone();
+        let res = catch_unwind(AssertUnwindSafe(|| {
+            crate::rt::block_on(async move {
+                for line in rest {
+                    let case = crate::parse_line(&line);
+                    let obs = run_client_case(&case, v5).await;
+                    r2.borrow_mut().push(crate::show_line(&obs));
+                }
+            });
+        }));
+        if res.is_err() {
+            results.borrow_mut().push("9999".to_string());
+        }
+    }
+    let out = results.borrow().clone();
+    out
+}
